@@ -47,6 +47,7 @@ pub struct Pending {
     pub kind: Kind,
     pub addr: usize,
     pub a: usize,
+    pub b: usize,
     pub what: &'static str,
     pub file: &'static str,
     pub line: u32,
@@ -222,7 +223,7 @@ impl Sched {
         }
         // hand the baton back and wait for our turn
         let mut g = self.inner.lock().unwrap();
-        g.threads[tid].pending = Some(Pending { kind: e.kind, addr: e.addr, a: e.a, what: e.what, file: e.loc.file(), line: e.loc.line() });
+        g.threads[tid].pending = Some(Pending { kind: e.kind, addr: e.addr, a: e.a, b: e.b, what: e.what, file: e.loc.file(), line: e.loc.line() });
         g.threads[tid].status = Status::Ready;
         if e.kind == Kind::BeforePark {
             g.threads[tid].thread_key = e.a;
@@ -368,6 +369,42 @@ pub enum Policy {
     /// run everything at random for `start` steps, then suspend `reader` (possibly in the middle of
     /// its operation) until step `after` or until nobody else can run, then run `reader` alone
     Solo { reader: usize, start: usize, after: usize },
+    /// a scripted schedule (regression scenarios): run the named thread until a condition on its
+    /// next pending access or on the accesses it has performed holds; afterwards round robin
+    Script(Vec<ScriptStep>),
+}
+
+/// how two values of an access relate (for `size_ctl` / `transfer_index` words)
+#[derive(Clone, Copy, Debug, PartialEq, Eq)]
+pub enum Rel {
+    Any,
+    /// `b == a + 1`
+    Inc,
+    /// `b == a - 1`
+    Dec,
+}
+
+#[derive(Clone, Debug)]
+pub enum Until {
+    /// the thread's next access is of this kind on a word whose name contains `what`
+    Pending { kind: Kind, what: &'static str, rel: Rel },
+    /// the thread has performed `count` (successful, for CAS) accesses of this kind
+    Done { kind: Kind, what: &'static str, rel: Rel, count: usize },
+    Finished,
+}
+
+#[derive(Clone, Debug)]
+pub struct ScriptStep {
+    pub tid: usize,
+    pub until: Until,
+}
+
+fn rel_holds(rel: Rel, a: usize, b: usize) -> bool {
+    match rel {
+        Rel::Any => true,
+        Rel::Inc => b == a.wrapping_add(1),
+        Rel::Dec => b == a.wrapping_sub(1),
+    }
 }
 
 pub struct RunOutcome {
@@ -400,6 +437,7 @@ pub fn drive(s: &Arc<Sched>, policy: &Policy, rng: &mut crate::types::Rng, budge
     let mut solo_steps: Option<usize> = None;
     let mut solo_blocked: Option<String> = None;
     let mut solo_done = false;
+    let mut script_pos = 0usize;
     loop {
         let unfinished = s.unfinished();
         if unfinished.is_empty() {
@@ -449,6 +487,36 @@ pub fn drive(s: &Arc<Sched>, policy: &Policy, rng: &mut crate::types::Rng, budge
                         solo_done = true;
                     }
                     if others.is_empty() { en[0] } else { others[rng.below(others.len() as u64) as usize] }
+                }
+            }
+            Policy::Script(script) => {
+                let mut pick = None;
+                while script_pos < script.len() {
+                    let st = &script[script_pos];
+                    let met = match &st.until {
+                        Until::Finished => !unfinished.contains(&st.tid),
+                        Until::Pending { kind, what, rel } => s
+                            .pending_of(st.tid)
+                            .map(|p| p.kind == *kind && p.what.contains(what) && rel_holds(*rel, p.a, p.b))
+                            .unwrap_or(false),
+                        Until::Done { kind, what, rel, count } => {
+                            let g = s.inner.lock().unwrap();
+                            g.trace.iter().filter(|e| e.tid == st.tid && e.kind == *kind && e.ok && e.what.contains(what) && rel_holds(*rel, e.a, e.b)).count() >= *count
+                        }
+                    };
+                    if met || !unfinished.contains(&st.tid) || !en.contains(&st.tid) {
+                        script_pos += 1;
+                        continue;
+                    }
+                    pick = Some(st.tid);
+                    break;
+                }
+                match pick {
+                    Some(t) => t,
+                    None => {
+                        rr += 1;
+                        en[rr % en.len()]
+                    }
                 }
             }
             Policy::Random => en[rng.below(en.len() as u64) as usize],
